@@ -33,6 +33,9 @@ mod python;
 mod quote;
 mod replication;
 
+#[cfg(maidsafe_safe_network_verif)]
+pub use self::node::VerifNode;
+
 pub use self::{
     event::{NodeEvent, NodeEventsChannel, NodeEventsReceiver},
     log_markers::Marker,
